@@ -371,7 +371,7 @@ def work(case: dict) -> dict:
                 made.append(ld)
                 fp = ld / it["name"]
             else:
-                fp.write_bytes(b"x\n")
+                fp.write_bytes(CONTENT_MAGICS[it["content"]].encode("latin-1") if it.get("content") is not None else b"x\n")
             arg = fp if it.get("pathobj") else str(fp)
             del hits[:]
             try:
@@ -633,6 +633,14 @@ def _configs(mime_keys: list[str]):
 
 DISPATCH_STEMS = ["report", "my report", "a.b.c", "x.pdf", "ünïcödé 文件", "q?x=1#f", "archive.tar", "UPPER.DOCX", "x.", "~$report", "._report", "#report#", "report~", " lead"]
 # what a symbolic link may point to (the link's own name is what was asked for; the target's name must not matter)
+# leading bytes of real formats: a file's content must never decide which extractor read_file runs (the name does, exactly as for get_extractor)
+CONTENT_MAGICS = {
+    "rtf": "{\\rtf1\\ansi\\deff0 x}", "pdf": "%PDF-1.4\n%\u00e2\u00e3\n", "zip": "PK\x03\x04\x14\x00\x00\x00\x08\x00", "ole": "\u00d0\u00cf\x11\u00e0\u00a1\u00b1\x1a\u00e1" + "\x00" * 24,
+    "html": "<!DOCTYPE html><html><body>x</body></html>", "xml": "<?xml version=\"1.0\"?><a/>", "mbox": "From a@b Mon Jan  2 03:04:05 2023\nSubject: x\n\nx\n",
+    "eml": "Received: by x\nFrom: a@b\nSubject: x\nMIME-Version: 1.0\n\nx\n", "gzip": "\x1f\u008b\x08\x00\x00\x00\x00\x00", "7z": "7z\u00bc\u00af\x27\x1c\x00\x04",
+    "bz2": "BZh91AY&SY", "xz": "\u00fd7zXZ\x00", "tar": "x" * 257 + "ustar\x0000", "json": "{\"a\": 1}", "csv": "a,b\n1,2\n", "utf16": "\u00ff\u00fex\x00", "empty": "",
+    "mhtml": "MIME-Version: 1.0\nContent-Type: multipart/related; boundary=\"b\"\n\n--b\nContent-Type: text/html\n\n<p>x</p>\n--b--\n", "epub": "PK\x03\x04\n\x00\x00\x00\x00\x00mimetypeapplication/epub+zip",
+}
 LINK_TARGETS = ["store/3f2a9c1d7e", "blob", "target.html", "target.pdf", "target.docx", "target.txt", "target.zzz", "target.tar.gz", "TARGET.ZIP", "dir.pdf/noext", "x."]
 DISPATCH_SUBS = ["", "dir.with.dots", "my dir.pdf", "a.tar.gz"]
 
@@ -665,6 +673,14 @@ def _dispatch_items(run):
             items.append({"name": name, "sub": "", "pathobj": rng.random() < 0.5, "link": tgt, "abs": rng.random() < 0.5, "chain": False})
     for ext in rng.sample(exts, run.n(6, 30)):
         items.append({"name": "f." + ext, "sub": "", "pathobj": False, "dirlink": rng.choice(("real.dir.pdf", "realdir", "real.zip"))})
+    # content of one format under the name of another: every routed extension x leading bytes of every real format, also for unrouted and missing extensions
+    magics = sorted(CONTENT_MAGICS)
+    for ext in exts:
+        for m in magics:
+            items.append({"name": rng.choice(DISPATCH_STEMS[:5]) + "." + rng.choice((ext, ext.upper(), _mix(rng, ext))), "sub": rng.choice(DISPATCH_SUBS), "pathobj": rng.random() < 0.5, "content": m})
+    for name in ("noext", "x.zzz", "x.text", "README", "x.doc.bak"):
+        for m in rng.sample(magics, run.n(4, len(magics))):
+            items.append({"name": name, "sub": "", "pathobj": False, "content": m})
     return items
 
 
@@ -1028,6 +1044,9 @@ def main(run):
         if tag in ctx.samples:
             run.samples.append(ctx.samples[tag])
     total = len(wl.paths) * len(cfgs)
+    n_disp = sum(run.counters.get("read_file_calls@" + c["name"], 0) for c in cfgs)      # every read_file case also asks both entry points about its path
+    n_sup += n_disp
+    n_get += n_disp
     run.count("is_supported_file_evaluations", n_sup)
     run.count("get_extractor_evaluations", n_get)
     run.count("extensions_in_universe", len(universe))
@@ -1047,6 +1066,7 @@ def main(run):
         run.require("paths@" + cfg["name"], run.counters.get("paths@" + cfg["name"], 0), int(0.98 * len(wl.paths)))
         run.require("mime_config_in_force@" + cfg["name"], run.counters.get("mime_config_in_force@" + cfg["name"], 0), 1)
         run.require("documented_names_resolved@" + cfg["name"], run.counters.get("documented_names_resolved@" + cfg["name"], 0), len(PUBLIC))
+        run.require("read_file_calls_on_foreign_content@" + cfg["name"], run.counters.get("read_file_calls_on_foreign_content@" + cfg["name"], 0), run.n(1000, 1000))
         run.require("read_file_calls_through_symlinks@" + cfg["name"], run.counters.get("read_file_calls_through_symlinks@" + cfg["name"], 0), run.n(60, 300))
         run.require("read_file_stub_hits@" + cfg["name"], run.counters.get("read_file_stub_hits@" + cfg["name"], 0),
                     int(0.9 * n_routed_d / len(cfgs)))
@@ -1090,7 +1110,9 @@ def _judge_dispatch(run, cfg, res, ditems, inv_doc, ctx):
         for it, ob in zip(chunk, o["d"]):
             name = it["name"]
             cls, ext, hidden, strong, d = _judge_route(run, cfg, name, (ob["sup"], ob["get"]), inv_doc, ctx, where="read_file-path")
-            via = "+symlink" if it.get("link") else ("+linked-directory" if it.get("dirlink") else "")
+            via = "+symlink" if it.get("link") else ("+linked-directory" if it.get("dirlink") else ("+content-of-another-format" if it.get("content") is not None else ""))
+            if it.get("content") is not None:
+                run.count("read_file_calls_on_foreign_content@" + cname)
             feat = (f"{cls}-ext" if strong else ("dotfile" if hidden else cls)) + via + "@" + cname
             if via:
                 run.count("read_file_calls_through_symlinks@" + cname)
